@@ -1639,7 +1639,6 @@ func (up4 *UP4) releaseStaleTunnelPeers(fars []far) {
 	defer up4.tunnelPeerMu.Unlock()
 
 	for _, far := range fars {
-		ref := tnlPeerReference{far.fseID, far.farID}
 		usesPeer := far.Forwards() && far.dstIntf == ie.DstInterfaceAccess && far.tunnelTEID != 0
 		current := tunnelParams{
 			tunnelIP4Src: ip2int(up4.accessIP.IP),
@@ -1647,29 +1646,51 @@ func (up4 *UP4) releaseStaleTunnelPeers(fars []far) {
 			tunnelPort:   far.tunnelPort,
 		}
 
-		for params, peer := range up4.tunnelPeerIDs {
-			if (usesPeer && params == current) || !peer.usedBy.Contains(ref) {
-				continue
-			}
-
-			peer.usedBy.Remove(ref)
-
-			if peer.usedBy.Cardinality() != 0 {
-				continue
-			}
-
-			entry, err := up4.p4RtTranslator.BuildGTPTunnelPeerTableEntry(peer.id, params)
-			if err != nil {
-				logger.PfcpLog.Errorln("failed to build GTP tunnel peer entry to remove")
-				continue
-			}
-
-			if err := up4.p4client.ApplyTableEntries(p4.Update_DELETE, entry); err != nil {
-				logger.PfcpLog.Errorln("failed to remove GTP tunnel peer")
-			}
-
-			up4.unsafeReleaseAllocatedGTPTunnelPeer(params)
+		if usesPeer {
+			up4.unsafeReleaseTunnelPeerReferences(far, &current)
+		} else {
+			up4.unsafeReleaseTunnelPeerReferences(far, nil)
 		}
+	}
+}
+
+// releaseAllTunnelPeerReferences drops every reference that the FARs hold on tunnel peers.
+func (up4 *UP4) releaseAllTunnelPeerReferences(fars []far) {
+	up4.tunnelPeerMu.Lock()
+	defer up4.tunnelPeerMu.Unlock()
+
+	for _, far := range fars {
+		up4.unsafeReleaseTunnelPeerReferences(far, nil)
+	}
+}
+
+// unsafeReleaseTunnelPeerReferences drops the references of the FAR on all tunnel peers but
+// keep, and removes the peers that are left without user.
+func (up4 *UP4) unsafeReleaseTunnelPeerReferences(far far, keep *tunnelParams) {
+	ref := tnlPeerReference{far.fseID, far.farID}
+
+	for params, peer := range up4.tunnelPeerIDs {
+		if (keep != nil && params == *keep) || !peer.usedBy.Contains(ref) {
+			continue
+		}
+
+		peer.usedBy.Remove(ref)
+
+		if peer.usedBy.Cardinality() != 0 {
+			continue
+		}
+
+		entry, err := up4.p4RtTranslator.BuildGTPTunnelPeerTableEntry(peer.id, params)
+		if err != nil {
+			logger.PfcpLog.Errorln("failed to build GTP tunnel peer entry to remove")
+			continue
+		}
+
+		if err := up4.p4client.ApplyTableEntries(p4.Update_DELETE, entry); err != nil {
+			logger.PfcpLog.Errorln("failed to remove GTP tunnel peer")
+		}
+
+		up4.unsafeReleaseAllocatedGTPTunnelPeer(params)
 	}
 }
 
@@ -1682,14 +1703,21 @@ func (up4 *UP4) sendUpdate(all PacketForwardingRules, updated PacketForwardingRu
 		up4.updateUEAddrAndFSEIDMappings(p)
 	}
 
-	if _, err := up4.updateTunnelPeersBasedOnFARs(updated.fars); err != nil {
+	// A modification that fails is rejected and the session keeps its old rules. References that
+	// its new rules have acquired on tunnel peers are given back as long as no sessions entry can
+	// point to those peers yet; afterwards they stay with the session until a later modification
+	// supersedes them or the session ends (sendDelete).
+	newPeerRefs, err := up4.updateTunnelPeersBasedOnFARs(updated.fars)
+	if err != nil {
 		restoreMappings()
 		return err
 	}
 
 	// Update QER IE might modify the rates of meters that are already configured
 	if err := up4.updateMeters(updated.qers); err != nil {
+		up4.dropTunnelPeerReferences(newPeerRefs)
 		restoreMappings()
+
 		return err
 	}
 
@@ -1720,6 +1748,9 @@ func (up4 *UP4) sendDelete(deleted PacketForwardingRules) error {
 	for _, f := range deleted.fars {
 		up4.removeGTPTunnelPeer(f)
 	}
+
+	// a rejected modification may have left the rules with references on further peers
+	up4.releaseAllTunnelPeerReferences(deleted.fars)
 
 	for _, p := range deleted.pdrs {
 		up4.removeUeAddrAndFSEIDMappings(p)
